@@ -87,9 +87,20 @@ func Load(dir, goos, goarch string) (*Prog, error) {
 	if err != nil {
 		return nil, err
 	}
-	if ov, notes := p.normalizeOverlay(); len(ov) > 0 {
+	if ov, notes := p.etaOverlay(); len(ov) > 0 {
 		if p2, err2 := loadWith(dir, goos, goarch, ov); err2 == nil {
 			p2.InlineNotes = notes
+			p = p2
+		}
+	}
+	if ov, notes := p.normalizeOverlay(); len(ov) > 0 {
+		for k, v := range p.Overlay {
+			if _, dup := ov[k]; !dup {
+				ov[k] = v
+			}
+		}
+		if p2, err2 := loadWith(dir, goos, goarch, ov); err2 == nil {
+			p2.InlineNotes = append(append([]string{}, p.InlineNotes...), notes...)
 			p = p2
 		} else {
 			p.InlineNotes = append(p.InlineNotes, "loop unrolling was attempted but the rewritten program does not type-check ("+firstLine(err2.Error())+"); analysing the original program")
